@@ -82,7 +82,8 @@ RQuoteIn == /\ T = "Q(" /\ skip' = FALSE
             /\ stack' = Append(stack, [kind |-> "Q", oldP |-> prefix, oldS |-> second, oldTight |-> tight, start |-> Len(lines)])
             /\ prefix' = Append(prefix, "Q") /\ second' = Append(second, "Q")
             /\ ctx' = Append(ctx, [kind |-> "Q", fresh |-> FALSE])
-            /\ UNCHANGED <<suppress, tight, lines>> /\ Adv
+            /\ suppress' = (IF Fixed THEN TRUE ELSE suppress)       \* D58 repair: nothing to separate from at the start of a quote
+            /\ UNCHANGED <<tight, lines>> /\ Adv
 RListIn == /\ T \in {"Lt(", "Ll("} /\ skip' = FALSE
            /\ stack' = Append(stack, [kind |-> "L", oldP |-> prefix, oldS |-> second, oldTight |-> tight, start |-> Len(lines)])
            /\ tight' = (T = "Lt(")
